@@ -56,6 +56,10 @@ TRUSTED = [
     "instantiates 20 methods x 9 callback type triples); the thorough tier adds a pass under ASan+UBSan",
     "numerical equality of the call forms is TESTED (bitwise, on the generated data sets), not proved: in the "
     "model all forms are the same function of the slot contents by construction",
+    "the denotation of an id sequence is the harness's: element j of the sequence is sample ids[j] (column ids[j] of the "
+    "feature matrix, row / column ids[j] of the tables); the matrix-form reference is built by copying those columns",
+    "the non-contiguous containers are the harness's own (StrideIt: a random-access iterator with value_type, over every "
+    "second slot of a vector; a deque filled by push_back / push_front so that it occupies two blocks)",
     "randomness: std::rand seeded by srand and hook H1 (verif_shuffle_reseed) before every call; OpenMP pinned "
     "to one thread",
 ]
@@ -73,6 +77,10 @@ ASSUMPTIONS = [
     "an outcome that is not an embedding (a documented exception with its message, a matrix holding NaN) is compared "
     "like an embedding: every call form must end the same way (duplicates, overflowing magnitudes, library defaults "
     "that do not fit the data set, rank-deficient covariance when there are more features than samples)",
+    "an id sequence with repeated ids denotes repeated samples (coincident points): a method may refuse or return NaN, "
+    "every call form must do the same",
+    "a call repeated alone in a fresh process must give bit for bit what it gave after other calls in the same process "
+    "(std::rand / the shuffle hook are re-seeded before every call)",
     "all runs are single-threaded (OMP_NUM_THREADS=1, omp_set_num_threads(1)): with several threads tapkee appends sparse "
     "triplets inside omp critical sections in thread order, so bitwise equality of two runs is not even expected of "
     "one and the same call form; thread counts are outside what this check compares",
@@ -186,9 +194,11 @@ def default_params(rng, ds, variant):
     p = {"d": variant.get("d", 2), "k": rng.choice([5, 6, 7]) if ds["kind"] != "clusters" else rng.choice([4, 5, 6]), "seed": rng.randint(1, 10 ** 6),
          "nm": variant.get("nm", "brute"), "em": variant.get("em", "dense"),
          "perp": rng.choice([2.0, 3.0, min(4.0, (n - 1) / 3.0)]), "theta": variant.get("theta", 0.0),
-         "maxit": variant.get("maxit", 30), "lr": 0.5, "width": rng.choice([1.0, 2.5]), "ts": rng.choice([1, 2, 3]),
+         "maxit": variant.get("maxit", 30), "lr": variant.get("lr", 0.5), "width": rng.choice([1.0, 2.5]), "ts": rng.choice([1, 2, 3]),
          "speg": variant.get("speg", 1), "spen": 20, "sq": 0.9, "wd": 20,
          "off": variant.get("off", rng.choice([3, 100, 1000]))}
+    if variant.get("k") == "N-1":
+        p["k"] = n - 1     # the COMPLETE neighbourhood graph: a configuration for which a method may take a short cut
     if variant.get("perm"):
         p["perm"] = rng.randint(1, 10 ** 6)    # the integers of the index sequences are permuted (families U, Y)
     if variant.get("min"):
@@ -900,6 +910,38 @@ def judge(ctx, ds, cases, results, needs, model, stats):
             stats["refused"] += 1
 
 
+# ----------------------------------------------------------------------------- state that survives a call
+def history_why(c, ds, br, fr, h):
+    tag = "%s/%s/%s/%s/%s%s" % (c["fam"], c["order"] or "-", c["entry"], c["back"], ds["kind"], shape_of(ds))
+    return ("%s (%s): the SAME call (same data, callbacks, parameters, random stream) gives another result in a fresh "
+            "process than after %d other tapkee call(s) in the same process: %s  [state survives a call: the result "
+            "depends on something else than the callback values]"
+            % (c["m"], tag, h, first_diff(br, fr) if br["kind"] == fr["kind"] == "OK" else
+               "%s vs %s" % ({k: v for k, v in br.items() if k not in ("hex", "counts")},
+                             {k: v for k, v in fr.items() if k not in ("hex", "counts")})))
+
+
+def judge_history(ctx, exe, ds, cases, i, br, fr, stats):
+    """br: the result of cases[i] inside its batch (after cases[:i] in the same process); fr: alone in a fresh process"""
+    if br["kind"] not in ("OK", "EXC") or fr["kind"] not in ("OK", "EXC"):
+        return
+    if same_result(br, fr):
+        stats["fresh_process_equal"] = stats.get("fresh_process_equal", 0) + 1
+        return
+    # a shorter history that still shows it (best effort)
+    hist = cases[:i]
+    for h in (1, 4, 20):
+        if h < i:
+            try:
+                r2 = run_cases(ctx, exe, ds, cases[i - h:i + 1])[-1]
+            except Exception:
+                break
+            if r2["kind"] in ("OK", "EXC") and not same_result(r2, fr):
+                hist, br = cases[i - h:i], r2
+                break
+    ctx.violation({"data": ds, "run": cases[i], "history": hist}, history_why(cases[i], ds, br, fr, len(hist)))
+
+
 # ----------------------------------------------------------------------------- shrinking
 class _Probe:
     """stands in for ctx inside judge(): records instead of reporting"""
@@ -948,8 +990,8 @@ def shrink_violations(ctx, exe, needs, limit=3):
             break
         if not (isinstance(case, dict) and "data" in case and "run" in case):
             continue
-        if "ids" in case["run"]:
-            continue        # the id sequence names samples of THIS data set
+        if "ids" in case["run"] or "history" in case:
+            continue        # the id sequence names samples of THIS data set / the history is part of the case
         if "'kind': 'CRASH'" in why:
             continue        # every probe of a hang costs the watchdog time again; the case is small enough as it is
         try:
@@ -1035,7 +1077,10 @@ def plan(ctx, tier, rng, extra_search=False):
                  ("dyadic", 16, 24, {"nm": "brute", "em": "dense", "reduced": 1, "maxit": 12}),
                  ("generic", 17, 17, {"nm": "vptree", "em": "dense", "reduced": 1, "maxit": 12, "speg": 0, "perm": 1}),
                  # a large common offset (2^20 against a spread of +-7), exact duplicates among the samples
-                 ("offset", 16, 3, {"nm": "covertree", "em": "dense", "reduced": 1, "maxit": 12}),
+                 # (this one in a SPECIAL CONFIGURATION as well: k = N - 1, the complete neighbourhood graph, and
+                 # landmark_ratio = 1, every sample a landmark -- together with the non-symmetric value tables, the
+                 # non-contiguous containers and an id sequence)
+                 ("offset", 16, 3, {"nm": "covertree", "em": "dense", "reduced": 1, "maxit": 12, "k": "N-1", "lr": 1.0}),
                  ("dups", 18, 3, {"nm": "brute", "em": "dense", "reduced": 1, "maxit": 12, "perm": 1}),
                  # every keyword but method and target dimension left to the library's defaults; ties (half-integer lattice)
                  ("lattice", 24, 3, {"reduced": 1, "maxit": 12, "min": 1, "perm": 1}),
@@ -1051,7 +1096,10 @@ def plan(ctx, tier, rng, extra_search=False):
                  ("lattice", 24, 3, {"reduced": 1, "maxit": 12, "min": 1}),
                  ("generic", 25, 40, {"nm": "brute", "em": "dense", "reduced": 1}),
                  ("lattice", 15, 16, {"nm": "covertree", "em": "dense", "reduced": 1}),
-                 ("dyadic", 19, 19, {"nm": "vptree", "em": "dense", "reduced": 1})]
+                 ("dyadic", 19, 19, {"nm": "vptree", "em": "dense", "reduced": 1}),
+                 ("dyadic", 17, 3, {"nm": "vptree", "em": "dense", "reduced": 1, "k": "N-1", "lr": 1.0}),
+                 ("generic", 18, 4, {"nm": "brute", "em": "dense", "reduced": 1, "k": "N-1", "lr": 1.0, "perm": 1}),
+                 ("dyadic", 70, 3, {"nm": "covertree", "em": "dense", "reduced": 1, "maxit": 12})]
         if tier != "quick" and not extra_search:
             specs += [("dyadic", 22, 4, {"nm": "vptree", "em": "dense", "d": 3, "speg": 0}),
                       ("generic", 19, 3, {"nm": "covertree", "em": "dense", "d": 1}),
@@ -1101,15 +1149,37 @@ def evaluate(ctx, exe, mexe, needs, datasets, tier, rng, stats, samples):
         stats["_fl"] += nfl
         for m in METHODS:
             cases += cases_for(m, needs.get(m, ""), ds, params, tier, rng, reduced=bool(variant.get("reduced")), seqs=seqs)
-        jobs.append((ds, params, seqs, cases))
+        # the FRESH-PROCESS stream: one call per method, chosen from the later part of the batch, is repeated alone in a
+        # process of its own; what it returns must not depend on the calls made before it in the same process
+        by_m, fresh = {}, []
+        for i, c in enumerate(cases):
+            by_m.setdefault(c["m"], []).append(i)
+        for m in METHODS:
+            idxs = by_m.get(m, [])
+            if idxs:
+                fresh.append(rng.choice(idxs[len(idxs) // 3:]))
+        jobs.append((ds, params, seqs, cases, fresh))
     # 2. the harness runs: independent processes, a few at a time
-    for ds, params, seqs, cases in jobs:
+    for ds, params, seqs, cases, fresh in jobs:
         probe_adapters(ctx, exe, ds, stats)
     from concurrent.futures import ThreadPoolExecutor
+
+    def work(job):
+        ds, params, seqs, cases, fresh = job
+        batch = run_cases(ctx, exe, ds, cases)
+        alone = {}
+        for i in fresh:
+            if CRASH_BUDGET["left"] > 0:
+                alone[i] = run_cases(ctx, exe, ds, [cases[i]])[0]
+        return batch, alone
     with ThreadPoolExecutor(max_workers=PARALLEL_RUNS) as pool:
-        all_results = list(pool.map(lambda job: run_cases(ctx, exe, job[0], job[3]), jobs))
+        all_results = list(pool.map(work, jobs))
     # 3. judged in order
-    for (ds, params, seqs, cases), results in zip(jobs, all_results):
+    for (ds, params, seqs, cases, fresh), (results, alone) in zip(jobs, all_results):
+        for i in sorted(alone):
+            n += 1
+            stats["by_fam"]["fresh-process"] = stats["by_fam"].get("fresh-process", 0) + 1
+            judge_history(ctx, exe, ds, cases, i, results[i], alone[i], stats)
         if any(r["kind"] == "NOTBUILT" for r in results):      # fallback build without the raw eigen family
             keep = [i for i, r in enumerate(results) if not (r["kind"] == "NOTBUILT" and cases[i]["fam"] in ("E", "X", "O", "P"))]
             cases, results = [cases[i] for i in keep], [results[i] for i in keep]
@@ -1159,6 +1229,12 @@ def run(ctx):
 
 
 def _run(ctx, restore):
+    import time
+    t0 = time.time()
+    phases = {}
+
+    def mark(name):
+        phases[name] = round(time.time() - t0, 1)
     rng = ctx.rng
     # the C++ build is the long pole: start it first, in parallel with the Coq side
     box = {}
@@ -1204,15 +1280,20 @@ def _run(ctx, restore):
         th2.start()
 
     tstatus = regenerate(ctx, restore)
+    mark("translators_done")
     coq = ctx.coq()
+    mark("coq_done")
     self_ok = translator_self_tests(ctx)
+    mark("self_tests_done")
     mexe = None
     try:
         mexe = ctx.extract()
     except vlib.BuildError as ex:
         ctx.unshown("the extracted model does not build over the regenerated tables: " + str(ex)[-400:])
     summ = model_summary(ctx, mexe)
+    mark("model_done")
     th.join()
+    mark("cpp_build_joined")
     if "err" in box:
         if isinstance(box["err"], vlib.BuildError):
             raise box["err"]
@@ -1282,9 +1363,11 @@ def _run(ctx, restore):
         for flag in ("callback_classes_ok", "wrappers_ok", "derefs_ok", "dispatch_ok", "adapters_ok", "callsites_ok", "invoked_ok"):
             if summ["flags"].get(flag) == "0":
                 ctx.note("regenerated tables: decider %s is false" % flag)
+    mark("corpus_done")
     plans = plan(ctx, ctx.tier, rng)
     slots_ok = slot_dumps(ctx, exe, mexe, plans[0][0])
     n += evaluate(ctx, exe, mexe, needs, plans, ctx.tier, rng, stats, samples)
+    mark("plan_evaluated")
     # search phase (CONVENTIONS section 3.2): something is no longer shown and no failing input yet
     if ctx.is_unshown() and not ctx.has_violation():
         ctx.note("search phase: proof / translator / correspondence no longer checks; running the thorough plan")
@@ -1328,18 +1411,32 @@ def _run(ctx, restore):
              "are PERMUTED as well as shifted, so that the order of the objects' values says nothing about positions.  Once per data set every adapter class is called directly for all ordered pairs.  Each result is compared "
              "bitwise with the reference when the chain supplies the declared callbacks, the 12 call counters, the "
              "object-to-index / index-to-object / not-an-element / adapter-contract counters are checked, and the extracted model's predicted outcome and allowed-call set are "
-             "compared.  non-trivial = a chain that returned an embedding bitwise equal to the reference; distinct by "
-             "hash of (data, method, family, order, entry, backing, neighbour method, eigen method).",
+             "compared.  WAVE 4: (i) the ID-SEQUENCE stream: every data set also embeds one or two sequences of sample ids "
+             "that are not 0..N-1 -- repeated ids, sorted and unsorted, of full length (as many entries as the tables have "
+             "rows) / shorter / longer, keeping or not keeping the end points 0 and N-1, reversed; 8 flavours rotating over "
+             "the data sets so that each runs in every run; reference = the feature matrix whose columns are the denoted "
+             "samples (exact data kinds) and hand-written table callbacks (value tables); forms: tapkee's eigen callbacks, "
+             "family P = tapkee's OWN precomputed_kernel / precomputed_distance / eigen_features objects attached DIRECTLY "
+             "(a method may special-case them by type), counting callbacks over every backing, the exact declared chain, "
+             "objects; (ii) CONTAINER kinds: std::vector, a std::deque whose elements straddle two blocks, a custom "
+             "random-access iterator over every second slot of an array (decoys between): families U and P, identity and id "
+             "sequences; (iii) one data set in the special configuration k = N-1 / landmark_ratio = 1; (iv) the "
+             "FRESH-PROCESS stream: per data set one call per method is repeated alone in a new process and must equal the "
+             "result it gave after the earlier calls of its batch.  non-trivial = a chain that returned an embedding bitwise "
+             "equal to the reference; distinct by hash of (data, method, family, order, entry, backing, neighbour method, "
+             "eigen method, id sequence, container).",
         samples=samples,
         histogram={"family": stats["by_fam"], "entry": stats["by_entry"], "backing": stats["by_back"],
                    "attached_callbacks": stats["by_order_len"], "outcomes": stats["outcomes"],
                    "container": stats["by_container"], "id_sequence": stats["by_idseq"],
                    "datasets": stats["datasets"],
                    "equal_embeddings": stats["equal_embeddings"], "refused_as_documented": stats["refused"],
+                   "fresh_process_repeats_equal_to_in_batch_result": stats.get("fresh_process_equal", 0),
                    "model_agreements": stats["model_agree"],
                    "features_dimension_calls_on_undeclared_features": stats["dimension_on_undeclared_features"]},
         trusted_base=TRUSTED, assumptions=ASSUMPTIONS,
         extra={"translators": tstatus, "translator_self_tests_ok": self_ok,
+               "seconds_since_start_at_phase": phases,
                "over_declaration_reported_not_judged": over,
                "needs_flags_read_from_library": needs,
                "sanitizer_pass": san,
@@ -1387,6 +1484,19 @@ def _replay(ctx, case, restore):
         print("replay: not a C13 call-form case (%s)" % list(case)[:5])
         return 1
     ds, c = case["data"], case["run"]
+    if "history" in case:
+        hist = list(case["history"])
+        br = run_cases(ctx, exe, ds, hist + [c])[-1]
+        fr = run_cases(ctx, exe, ds, [c])[0]
+        for tag, r in (("after %d earlier call(s) in the same process" % len(hist), br), ("alone in a fresh process", fr)):
+            print("%s fam=%s order=%s entry=%s back=%s %s -> %s" % (c["m"], c["fam"], c["order"] or "-", c["entry"], c["back"], tag,
+                  {k: (v[:120] + "..." if isinstance(v, str) and len(v) > 120 else v) for k, v in r.items()}))
+        if not same_result(br, fr):
+            print("  " + history_why(c, ds, br, fr, len(hist))[:400])
+            print("replay: property C13 FAILS on this call (the result depends on earlier calls)")
+            return 1
+        print("replay: property C13 holds on this call (same result with and without the earlier calls)")
+        return 0
     needs = impl_needs(ctx, exe)
     cases = [reference_for(c), c]
     results = run_cases(ctx, exe, ds, cases)
